@@ -104,7 +104,7 @@ func runC19(t *rapid.T) {
 		}
 	}
 	tr.Scramble = scr
-	tr.Table = []string{"t", "tbl_1", "Tab"}[rapid.IntRange(0, 2).Draw(t, "table")]
+	tr.Table = []string{"t", "tbl_1", "Tab", "v1.events", "a.b.c", "t.", "sch-1.t"}[rapid.IntRange(0, 6).Draw(t, "table")]
 	conf = append(conf, qsql.Table(tr.Table))
 	cfg.ExecMode = rapid.IntRange(0, 2).Draw(t, "execmode")
 	cfg.NumInputUnknown = rapid.Bool().Draw(t, "numinput")
@@ -125,7 +125,9 @@ func runC19(t *rapid.T) {
 
 	base := fs.Build()
 	if base.Err != nil {
-		t.Fatalf("harness: generated frame rejected by New: %v", base.Err)
+		// what New accepts is not this property's business: no frame, nothing to check
+		newRejected(t, base.Err)
+		return
 	}
 	qf := scr.Apply(base)
 	if qf.Err != nil {
